@@ -76,7 +76,7 @@ claim("C11",
       PARSE_NOTE, "DESIGN.md section 6, C11")
 claim("C15",
       "grammar-directed mutation fuzzing under Hypothesis: token deletions / duplications / swaps / replacements, extreme literals, spliced programs, deep nesting, raw text, drawn option sets and size maps, CLI file names; oracle 'text or documented refusal, no hang', internal failures bucketed by (exception type, innermost function in coco/, message part)",
-      "Generated-input search; five recorded internal failures are recognised by call site, any other internal exception, wrong return type or hang is a violation. The atheris coverage-guided target of the design is not built (see DESIGN.md).",
+      "Generated-input search; five recorded internal failures are recognised by call site, any other internal exception, wrong return type or hang is a violation. The thorough tier adds four coverage-guided atheris/libFuzzer campaigns (150 000 runs each) with the same oracle inside the fuzz target.",
       "Trusts the list of documented refusal exceptions; hang limit 20 s / 120 s against a normal cost of milliseconds.", "DESIGN.md section 6, C15")
 claim("C03",
       "differential PBT: Hypothesis-generated programs over arrays / DATA-READ-RESTORE / PRINT lists / INPUT / string functions, event-trace comparison between the Color BASIC and BASIC09 reference interpreters under storage 32/80 and both initialize_vars values, with uninitialised-read and truncation tracking in the BASIC09 interpreter",
